@@ -42,7 +42,8 @@ def h_exact(ctx, cfg):
             return
         sigs = [U.sig_of(s, 'f%d' % j)[0] for j, s in enumerate(specs)]
     try:
-        R = S.merge(*sigs)
+        with sym.concrete():
+            R = S.merge(*sigs)
     except S.IncompatibleSignatures:
         with sym.notrace():
             names = all_names(shapes)
